@@ -74,6 +74,56 @@ def gen_nested_graph(rng, name):
     return M.Schema(name, [], ents)
 
 
+def tworoot_family():
+    """Seed-independent graphs with TWO roots joined by entities that have a supertype under each: (A) a part with two supertypes
+    below nested ONEOF/AND/ANDOR expressions that mix a ONEOF with a plain sibling or an implicit subtype; (B) two roots sharing
+    the same children, one of them ABSTRACT with an implicit subtype.  Every subset is enumerated like for the other families,
+    in batches, so that refused and created instances follow each other in one read."""
+    L = lambda n: ('leaf', n)
+
+    def tmpl(k, x, y, w):
+        return {'oneof_andor': ('andor', ('oneof', [L(x), L(y)]), L(w)), 'oneof_and': ('and', ('oneof', [L(x), L(y)]), L(w)),
+                'andor_implicit': ('andor', L(x), L(y)), 'oneof_implicit': ('oneof', [L(x), L(y)]),
+                'and_andor': ('andor', ('and', L(x), L(y)), L(w))}[k]
+    out = []
+    ks = ['oneof_andor', 'oneof_implicit', 'andor_implicit', 'and_andor']
+    n = 0
+    for k2 in ks:
+        for kp in ks[:3]:
+            ents = [M.Entity('z', attrs=[M.Attr('a_z', M.INT())])]
+
+            def E(nm, sup=(), ab=False, sx=None):
+                ents.append(M.Entity(nm, supers=list(sup), abstract=ab, sexpr=sx, attrs=[M.Attr('a_' + nm, M.INT())]))
+            E('r1', sx=('oneof', [L('m')]))
+            E('r2', sx=tmpl(k2, 'p', 's', 'q'))
+            E('p', ['r2'], sx=tmpl(kp, 'm', 't', 'u'))
+            E('s', ['r2'])
+            E('q', ['r2'])
+            E('m', ['r1', 'p'])
+            E('t', ['p'])
+            E('u', ['p'])
+            out.append(M.Schema('tra%d' % n, [], ents))
+            n += 1
+    n = 0
+    for op in ('andor', 'and', 'oneof'):
+        for ab_c in (True, False):
+            for ab_a in (False, True):
+                ents = [M.Entity('z', attrs=[M.Attr('a_z', M.INT())])]
+
+                def E(nm, sup=(), ab=False, sx=None):
+                    ents.append(M.Entity(nm, supers=list(sup), abstract=ab, sexpr=sx, attrs=[M.Attr('a_' + nm, M.INT())]))
+                sx = ('oneof', [L('c'), L('a')]) if op == 'oneof' else (op, L('c'), L('a'))
+                E('r1', sx=sx)
+                E('r2', sx=sx)
+                E('c', ['r1', 'r2'], ab=ab_c)
+                E('b', ['c'])
+                E('a', ['r1', 'r2'], ab=ab_a)
+                E('d', ['a'])
+                out.append(M.Schema('trb%d' % n, [], ents))
+                n += 1
+    return out
+
+
 def set_shape(s, T):
     """Coarse description of a candidate set used in keys."""
     T = set(T)
@@ -159,6 +209,7 @@ def main(chk):
         graphs.append(gen_nested_graph(rng, 'n%d_%d' % (chk.seed, gi)))
     # the fixed member of the nested family (AND of two abstract ONEOF supertypes under ANDOR) runs on every seed
     graphs.append(gen_nested_graph(type('R', (), dict(choice=staticmethod(lambda xs: xs[0]), random=staticmethod(lambda: 0.5)))(), 'nfix_a'))
+    graphs += tworoot_family()
     graphs += [p.prepare().schema for p in probes.PROBES.get('C08', [])]
     libs = p21fam.report_build_failures(chk, p21fam.build_libs(graphs))
     jobs = []
